@@ -21,10 +21,9 @@ object threaded through the whole game.
   invariant is `EngOK … FromGen … SizeOK` (the hypothesis of `C07_pv`, `C20_pv`, `C17_pv`), from `NewMinimax` on.
 * `lock_faithful` – at most one thinker is inside `GetMove` (so threading rule notes and engine is faithful).
 * `current_thinker_total` – a call by the thinker of the current invocation never reads the record out of range.
-* `stale_thinker_panics`, `getMove_after_gameOver_panics` – the tree before `fixes/C07-stale-thinker.diff`: a thinker
-  that got the lock after its invocation was over crashes the process; `*_fixed`: the same schedules with the fix.
-* `cairn_undo_resigns_composed`, `doubleStack_resume_resigns_composed`, `doubleStack_resume_panics_composed` – the
-  findings of work package botglue are reachable in the composed system. -/
+* `Ex.staleEvs`, `Ex.overEvs` – schedules of the stale-thinker defect (tree before `fixes/C07-stale-thinker.diff`).
+* `Ex.cairnEvs`, `Ex.dsEvs`, `Ex.dsPanicEvs` – the three FPA histories; the theorems about them (patched code and the tree
+  before `fixes/C07-fpa-record-notes.diff`) are in `Props/C07_fpa.lean`. -/
 namespace C07
 open Tak Tak.Bot Tak.Glue Tak.FPA Tak.Compose Spec.FPA
 
@@ -233,13 +232,13 @@ theorem minimax_keeps_engInv (basis : Array W) (ev : Pos → Int) (sym : Pos →
   have hP := C04.prov_noTable (C04.sizeOK_closed basis ev sym) (C04.OrderOK.sub x.2)
   exact (Search.getMove_engOK hP scfg p ⟨by rw [hp]; exact hn.1, by rw [hp]; exact hn.2⟩ (Or.inl rfl) e he (m, e') hrun).1
 
-theorem callOK_friendly {c : Compose.Conf} {var : Option Variant} (hw : c.who = .friendly var) {call : Call}
-    (h : CallOK c call) :
+theorem callOK_friendly {c : Compose.Conf} {var : Option Variant} (hw : c.who = .friendly var) (hrep : c.replay = true)
+    {call : Call} (h : CallOK c call) :
     Glue.friendlyGetMove call.fpa { color := c.bot.color, size := c.size, positions := call.positions, moves := call.moves }
       call.pos call.chk = .ok (call.fpa', call.act) := by
   unfold CallOK glueOn at h
   rw [hw] at h
-  exact h
+  simpa only [hrep, if_true] using h
 
 theorem callOK_taktician {c : Compose.Conf} {tc : TakticianCfg} (hw : c.who = .taktician tc) {call : Call}
     (h : CallOK c call) : call.act = takticianGetMove tc c.bot.color c.size call.pos call.mine := by
@@ -257,9 +256,10 @@ engine configuration, evaluator and EVERY event list:
    which read the record `call.positions` / `call.moves` and the rule notes `call.fpa`, and is **the rule's scripted
    move** (`.move`) **or the engine's answer for exactly that position** (`Search.getMove … rec.recAt eng`) from an
    `EngInv` state;
-4. a call resigns **iff** an FPA rule is installed and its check rejects the newest pair of the record the call read;
+4. a call resigns **iff** an FPA rule is installed and its check — with the notes rebuilt from the record the call read
+   (`fixes/C07-fpa-record-notes.diff`, `c.replay`) — rejects the newest pair of that record;
 5. what is sent from inside `GetMove` is exactly `Resign` + `Tell` for those calls, in order. -/
-theorem bot_inv_friendly (c : Compose.Conf) (var : Option Variant) (hw : c.who = .friendly var)
+theorem bot_inv_friendly (c : Compose.Conf) (var : Option Variant) (hw : c.who = .friendly var) (hrep : c.replay = true)
     (hfix : c.bot.fixed = true) (hsize : 3 ≤ c.size ∧ c.size ≤ 8)
     (ev : Pos → Int) (sym : Pos → List Search.H) (scfg : Search.Cfg) (secs : Int)
     (evs : List (Compose.Ev { o : Search.Oracle Move // Search.OrderOK o })) :
@@ -282,14 +282,14 @@ theorem bot_inv_friendly (c : Compose.Conf) (var : Option Variant) (hw : c.who =
   refine ⟨h1, h5, ?_, ?_, h4⟩
   · intro rec hrec
     obtain ⟨r, _, _, hpos, hcall, hok, hG, hsrc⟩ := h2 rec hrec
-    have hf := callOK_friendly hw hok
+    have hf := callOK_friendly hw hrep hok
     rw [hpos] at hf
     refine ⟨r.call, hcall, hpos, r.call.act, hf, ?_⟩
     rcases hsrc with h | ⟨lim, fl, x, eng', hact, _, hrun⟩
     · exact .inl h
     · exact .inr ⟨lim, fl, x.1, r.eng, eng', hact, hG, x.2, hrun⟩
   · intro call hcall
-    exact C20.friendly_resigns_iff_rule_rejects _ _ _ _ _ _ (callOK_friendly hw (h3 call hcall))
+    exact C20.friendly_resigns_iff_rule_rejects _ _ _ _ _ _ (callOK_friendly hw hrep (h3 call hcall))
 
 theorem resignWire_of_not_sends {a : Action} (h : a.sends = false) : resignWire a = [] := by
   cases a <;> first | rfl | cases h
@@ -371,12 +371,13 @@ theorem friendly_total_of (fpa : Option (Variant × Rule)) (g : GameRec) (p : Po
         | [], _ => rw [hg] at hp2; simp at hp2
         | [_], _ => rw [hg] at hp2; simp at hp2
         | _ :: _ :: _, [] => rw [hg2] at hm; simp at hm
-      simp only [hp, if_true, hq]
+      obtain ⟨r1, her, hl⟩ := hl hp
+      simp only [hp, if_true, her, hq]
       obtain ⟨⟨r', ok⟩, hx⟩ := hl q m hq
       rw [hx]
       cases ok with
       | false =>
-        obtain ⟨msg, he⟩ := errMsg_ok_of_reject hx
+        obtain ⟨msg, he⟩ := errMsg_ok_of_reject (r := if (viewOfPos q).ply = 0 then {} else r1) hx
         simp only [he]
         exact ⟨_, rfl⟩
       | true =>
@@ -397,12 +398,13 @@ theorem friendly_total_of (fpa : Option (Variant × Rule)) (g : GameRec) (p : Po
 panicked, a `Friendly.GetMove` call by the thinker of the CURRENT `handleMove` invocation runs through: it does not read
 the record out of range (`f.g.Positions[len-2]`, `f.g.Moves[len-1]`), whatever the interleaving that led there (undo,
 replayed history, late thinkers).  The position the thinker was started on is still in the record, and the record
-still ends in the start position.  Assumed: the rule's own code does not panic (`C20.RuleTotal`; see
-`doubleStack_resume_panics_composed` for a reachable state where it does), and the check engine claims a win in
+still ends in the start position.  Assumed: the rule's own code does not panic on this record (`C20.RuleTotal`; with
+`fixes/C07-fpa-record-notes.diff` the notes are a function of the record — `C07.call_notes_irrelevant` — and the resumed
+game that crashed the tree before it runs through: `C07.resume_no_panic`), and the check engine claims a win in
 one only on a position that is not a start position (C05 `verdict_sound`: no road on an empty board).
 For a thinker of an EARLIER invocation the statement is false on the tree before `fixes/C07-stale-thinker.diff`
 (`stale_thinker_panics`); with the fix such a call returns before it reads anything. -/
-theorem current_thinker_total (c : Compose.Conf) (var : Option Variant) (hw : c.who = .friendly var)
+theorem current_thinker_total (c : Compose.Conf) (var : Option Variant) (hw : c.who = .friendly var) (hrep : c.replay = true)
     (hfix : c.bot.fixed = true) (hsize : 3 ≤ c.size ∧ c.size ≤ 8) (S : Searcher σ χ) (secs : Int) (eng0 : σ)
     (evs : List (Compose.Ev χ)) (chk : CheckOracle)
     (hnc : ¬ (Compose.run c S (Compose.start c secs eng0) evs).b.crashed)
@@ -436,6 +438,7 @@ theorem current_thinker_total (c : Compose.Conf) (var : Option Variant) (hw : c.
     | _ :: _ :: _ => simp
   unfold glueCall glueOn
   rw [hw]
+  simp only [hrep, if_true]
   apply friendly_total_of _ _ _ _ hrule
   · intro hm
     have := hlen hm
